@@ -543,6 +543,15 @@ THEOREMS["C13"] = ["Pest.C13." + t for t in (
 THEOREMS["C16"] = ["Pest.C16." + t for t in (
     "shift_invariance gen_shift_invariance parse_shift_rel gen_parse_shift_rel parse_shift gen_parse_shift resRel_left_unique "
     "resRelG_left_unique no_lookbehind gen_no_lookbehind prefix_irrelevant").split()] + ["Pest.soiFreeG_iff"]
+# composed corollaries for the two optimized modes (Props/AllModes.lean, the module that carries C06/C07/C13/C16)
+_AM = "Pest.AllModes."
+THEOREMS["C06"] += [_AM + t for t in "opt_interp_tree_wf opt_gen_tree_wf gNameOK_orig opt_interp_names opt_gen_names opt_interp_no_skip_pair opt_interp_root_single opt_gen_root_single".split()]
+THEOREMS["C07"] += [_AM + t for t in "opt_parse_terminates opt_interp_terminates opt_interp_answers opt_gen_answers opt_parse_total".split()]
+THEOREMS["C13"] += [_AM + t for t in "opt_knownNames opt_failure_names_known opt_gen_failure_names_known".split()]
+THEOREMS["C16"] += [_AM + t for t in "opt_soiFree opt_parse_shift opt_gen_parse_shift opt_no_lookbehind opt_gen_no_lookbehind".split()]
+THEOREMS["C02"] += [_AM + t for t in "opt_same_verdict_and_tree plain_vs_opt_interp opt_interp_run_agrees".split()]
+THEOREMS["C04"] += [_AM + t for t in "opt_seq_trivia_between opt_same_verdict_and_tree".split()]
+THEOREMS["C05"] += [_AM + t for t in "opt_failed_op_is_identity opt_stack_ops_never_raise opt_same_verdict_and_tree".split()]
 THEOREMS["C05_gen"] = ["Pest.C01.gen_equiv_interp", "Pest.C01.gen_no_exc"]
 
 
@@ -938,6 +947,22 @@ def _worker(job):
                 out["timeouts"].append({"group": "stack-template", "grammar": gtext, "passes": list(PASS_NAMES)})
             finally:
                 signal.alarm(0)
+    if prop == "C05" or (tier == "thorough" and prop in ("C01", "C02")):
+        # every PEEK[i..j] over a three-entry stack x every input over {a,b,c} up to length 3 (sharded)
+        nshg = do_bundled[1] if do_bundled else NCPU
+        inputs_g = small_inputs("abc", 3)
+        for j_, rules in enumerate(G.slice_grid()):
+            if j_ % nshg != shard:
+                continue
+            gtext = G.show_grammar(rules)
+            signal.alarm(120)
+            try:
+                eval_grammar(prop, rng, "slice-grid", gtext, rules, choose_passes(rng, rng.randrange(2)), [("r", t, 0) for t in inputs_g], out)
+                out["stats"]["slice_grid_grammars"] += 1
+            except Timeout:
+                out["timeouts"].append({"group": "slice-grid", "grammar": gtext, "passes": list(PASS_NAMES)})
+            finally:
+                signal.alarm(0)
     if prop == "C05" or (tier == "thorough" and prop in ("C01", "C07")):
         # "the accepted input is the stack": non-consuming manipulations undone by a catch point, then PEEK_ALL ~ EOI
         inputs2 = small_inputs("abxy", 5 if tier == "thorough" else 4)
@@ -996,9 +1021,12 @@ def _worker(job):
                                 lit_chars(x, acc)
                         return acc
                     chars = sorted(lit_chars(rules["r"][1], set()))
+                    # every mentioned character and its two neighbours in code-point order, one at a time (membership) …
+                    near = sorted({chr(ord(c) + d) for c in chars for d in (-1, 0, 1) if 0 < ord(c) + d < 0x110000})
                     if len(chars) > 6:
                         chars = rng.sample(chars, 6)
-                    inputs3 = small_inputs("".join(chars) or "a", 4 if tier == "thorough" else 3) + ["ab1", "abc", "aBc", "1a", "\n", "\r\n", "ba b"]
+                    # … and every short string over a sample of them (order of alternatives, longest-match effects)
+                    inputs3 = near + small_inputs("".join(chars) or "a", 4 if tier == "thorough" else 3) + ["ab1", "abc", "aBc", "1a", "\n", "\r\n", "ba b"]
                 signal.alarm(120)
                 try:
                     starts_ = [n for n in ("r", "r2", "r3", "r4", "SKIP") if n in rules]
@@ -1034,7 +1062,7 @@ def _worker(job):
                 out["timeouts"].append({"group": "modifier-tree", "grammar": gtext, "passes": list(PASS_NAMES)})
             finally:
                 signal.alarm(0)
-    if prop == "C04" or (tier == "thorough" and prop in ("C01", "C06")):
+    if prop in ("C04", "C01") or (tier == "thorough" and prop == "C06"):
         # chains of four rules under every assignment of modifiers, with a blank at every subset of the gaps
         import itertools as _it
         all_mods = list(_it.product(["", "_", "@", "$", "!"], repeat=4))
